@@ -31,12 +31,17 @@ class FeedServer:
             if delay:
                 time.sleep(delay)
 
-    def drop(self):
+    def drop(self, reset=False):
+        """close the connection: orderly (FIN) or abortively (RST, as a crashed server would)"""
         if self.conn:
-            try:
-                self.conn.shutdown(socket.SHUT_RDWR)
-            except OSError:
-                pass
+            if reset:
+                import struct
+                self.conn.setsockopt(socket.SOL_SOCKET, socket.SO_LINGER, struct.pack("ii", 1, 0))
+            else:
+                try:
+                    self.conn.shutdown(socket.SHUT_RDWR)
+                except OSError:
+                    pass
             self.conn.close()
             self.conn = None
 
